@@ -12,6 +12,8 @@ NPos(k) == CASE k = "named_struct" -> 3 [] k = "tuple_struct" -> 1 [] k = "unit_
              \* structs whose field types hold expressions beyond the literal / path subset: an array length written as an if expression,
              \* as a block, as an index expression (valid Rust; the twin compiles)
              [] k \in ExprKinds -> 2
+             \* an alias / a const whose text mentions a path through a module called `union` (a contextual keyword only)
+             [] k \in {"alias_union_path", "const_union_path"} -> 0
 Init == c \in [kind : Kinds, outer : OuterArgs, helper : Helpers, mix : Mixes, at : SUBSET (1..MaxPos)]
 Next == UNCHANGED c
 InScope == c.at \subseteq 1..NPos(c.kind)
